@@ -141,6 +141,14 @@ def probe_fixed_points(D, N, order, seed):
         ("GrayScott:(1,0)", rea.GrayScott(D, L, N, dt, order=order), [1.0, 0.0]),
         ("CahnHilliard:u=0.37", rea.CahnHilliard(D, L, N, dt, order=order), [0.37]),
         ("SwiftHohenberg:u=0", rea.SwiftHohenberg(D, L * 4, N, dt, order=order), [0.0]),
+        # documented equation u_t = r u − (k + Δ)² u + u² − u³: constant equilibria solve (r − k²) u + u² − u³ = 0
+        ("SwiftHohenberg(r=0.7,k=0.5):u+", rea.SwiftHohenberg(D, L * 4, N, dt, reactivity=0.7, critical_number=0.5, order=order),
+         [(1 + np.sqrt(1 + 4 * (0.7 - 0.25))) / 2]),
+        ("SwiftHohenberg(r=0.7,k=0.5):u-", rea.SwiftHohenberg(D, L * 4, N, dt, reactivity=0.7, critical_number=0.5, order=order),
+         [(1 - np.sqrt(1 + 4 * (0.7 - 0.25))) / 2]),
+        ("SwiftHohenberg(r=0.3,k=1.4):u=0", rea.SwiftHohenberg(D, L * 4, N, dt, reactivity=0.3, critical_number=1.4, order=order), [0.0]),
+        ("FisherKPP(r=0.6):u=1", rea.FisherKPP(D, L, N, dt, reactivity=0.6, diffusivity=0.03, order=order), [1.0]),
+        ("AllenCahn(c1=1.5,c3=-0.5):u=sqrt3", rea.AllenCahn(D, L, N, dt, first_order_coefficient=1.5, third_order_coefficient=-0.5, order=order), [np.sqrt(3.0)]),
         ("Burgers:const", st.Burgers(D, L, N, dt, order=order), list(rng.normal(size=D))),
         ("KuramotoSivashinsky:const", st.KuramotoSivashinsky(D, L * 6, N, dt, order=order), [0.6]),
         ("KortewegDeVries:const", st.KortewegDeVries(D, L * 3, N, dt, order=order), list(rng.normal(size=D))),
